@@ -2136,6 +2136,27 @@ impl<'a, R: FileManager> FrontendCtx<'a, R> {
         visibility: Visibility,
         anchor: &Anchor,
     ) -> Res<Runtype> {
+        self.extract_type_from_ts_entity_name_with_args_of(
+            type_name,
+            ts_type_args,
+            file.clone(),
+            file,
+            visibility,
+            anchor,
+        )
+    }
+
+    /// `args_file` is the file in which the type arguments are written: for
+    /// `import("./g").G<Loc>` that is the importing file, while `G` is looked up in g.ts
+    fn extract_type_from_ts_entity_name_with_args_of(
+        &mut self,
+        type_name: &TsEntityName,
+        ts_type_args: &Option<Box<TsTypeParamInstantiation>>,
+        args_file: BffFileName,
+        file: BffFileName,
+        visibility: Visibility,
+        anchor: &Anchor,
+    ) -> Res<Runtype> {
         if let TsEntityName::Ident(ident) = type_name {
             for (n, t) in self.type_application_stack.iter().rev() {
                 if ident.sym == *n {
@@ -2148,7 +2169,7 @@ impl<'a, R: FileManager> FrontendCtx<'a, R> {
             Some(its) => {
                 let mut args = vec![];
                 for ty in &its.params {
-                    let arg_ty = self.extract_type(ty, file.clone())?;
+                    let arg_ty = self.extract_type(ty, args_file.clone())?;
                     args.push(arg_ty);
                 }
                 args
@@ -2841,9 +2862,10 @@ impl<'a, R: FileManager> FrontendCtx<'a, R> {
         {
             match &import_type.qualifier {
                 Some(ts_entity_name) => {
-                    return self.extract_type_from_ts_entity_name(
+                    return self.extract_type_from_ts_entity_name_with_args_of(
                         ts_entity_name,
                         &import_type.type_args,
+                        file,
                         resolved,
                         Visibility::Export,
                         &anchor,
@@ -2854,7 +2876,7 @@ impl<'a, R: FileManager> FrontendCtx<'a, R> {
                         Some(its) => {
                             let mut args = vec![];
                             for ty in &its.params {
-                                let arg_ty = self.extract_type(ty, resolved.clone())?;
+                                let arg_ty = self.extract_type(ty, file.clone())?;
                                 args.push(arg_ty);
                             }
                             args
